@@ -31,6 +31,20 @@
 (*   refine    gts[] : translations of all grains at a refine() call made   *)
 (*             outside gof                                                 *)
 (*   rpbegin / rpend  tol                                                   *)
+(*   savebegin sort (the sort_npks argument), npks[] (peaks held by the     *)
+(*             grain of every place when savegrains starts)                 *)
+(*   saveend   written[] : places of the grains in the order the saved      *)
+(*             grain file lists them (from its #name lines)                 *)
+(* THE SAVE STEP (RefineFlow!SaveGrains .. PGUse): between savebegin and    *)
+(* saveend the loop of savegrains visits (grain object, key) pairs: the     *)
+(* settrans event carries the KEY whose translation was loaded, the         *)
+(* computegv event (upd = TRUE: it fills tth / eta / omegacalc per grain    *)
+(* and is followed by the numpy.put of gx..l at that grain's rows) carries  *)
+(* the grain OBJECT, from its name.  Per-grain state while the columns are  *)
+(* filled: cur (key loaded), pt (translation in the parameter object),      *)
+(* filled (objects done so far).  Rules: key = object ; translation = the   *)
+(* object's own ; every grain exactly once ; the file lists the grains by   *)
+(* non-increasing npks when sort, else by place.                            *)
 (* The rules are the invariants of RefineFlow.tla evaluated on the real     *)
 (* call sequence (see the why strings); the ASSIGNMENT action of           *)
 (* RefineFlow.tla (the competing-owner rule of score_and_assign, as         *)
@@ -47,6 +61,10 @@
 (* saved label column / per-grain counts / unindexed file agree with the    *)
 (* last assignment, and the same rule holds for the untracked peaks         *)
 (* (judged by the harness with the same definitions, reported as py_bad).   *)
+(* Per-peak columns: cols[] names ("file:h" .. "mem:drlv2") and cratio[] =  *)
+(* 1000 x (largest deviation of the column from the harness's forward model *)
+(* of the owning grain with its refined ubi and translation) / (bound:      *)
+(* resolution of the representation + model tolerance); > 1000 is rejected. *)
 (***************************************************************************)
 EXTENDS Integers, Sequences, FiniteSets, TLC, Json, IOUtils
 
@@ -56,14 +74,18 @@ VARIABLES t, e, gt, pt, cur, sim, inrp, presented, why,
           utol,      \* tolerance the user has set (changes with usertol events)
           own, drl,  \* tracked peak -> label / rank of the stored error, as the assignment rule gives them
           tab,       \* label -> rk of the calls of the running pass
-          npass      \* completed assignment passes
-vars == <<t, e, gt, pt, cur, sim, inrp, presented, why, utol, own, drl, tab, npass>>
+          npass,     \* completed assignment passes
+          insave,    \* inside savegrains ; sv = <<sort flag, npks by place>> of the running / last savegrains
+          sv, filled \* grain objects whose per-peak columns were filled so far by the running savegrains (a sequence)
+savevars == <<insave, sv, filled>>
+vars == <<t, e, gt, pt, cur, sim, inrp, presented, why, utol, own, drl, tab, npass, savevars>>
 EOUT == 99
 
 Rec == Trace[t]
 Ev == Rec.ev[e + 1]
 Start(r) == /\ gt' = r.gt0 /\ pt' = r.pt0 /\ cur' = 0 /\ sim' = 0 /\ inrp' = FALSE /\ presented' = {}
             /\ utol' = r.utol /\ own' = <<>> /\ drl' = <<>> /\ tab' = <<>> /\ npass' = 0
+            /\ insave' = FALSE /\ sv' = <<>> /\ filled' = <<>>
 
 Init == /\ t = 1 /\ e = 0 /\ why = "ok"
         /\ gt = IF Len(Trace) > 0 THEN Trace[1].gt0 ELSE <<>>
@@ -71,6 +93,7 @@ Init == /\ t = 1 /\ e = 0 /\ why = "ok"
         /\ cur = 0 /\ sim = 0 /\ inrp = FALSE /\ presented = {}
         /\ utol = IF Len(Trace) > 0 THEN Trace[1].utol ELSE 0
         /\ own = <<>> /\ drl = <<>> /\ tab = <<>> /\ npass = 0
+        /\ insave = FALSE /\ sv = <<>> /\ filled = <<>>
 
 Live == t <= Len(Trace) /\ e < Len(Rec.ev) /\ why = "ok"
 Consume == e' = e + 1 /\ t' = t
@@ -79,12 +102,12 @@ SetTrans == /\ Live /\ Ev.k = "settrans"
             /\ why' = IF Ev.gt # gt[Ev.g] THEN "a grain's translation changed outside its own position refinement"
                       ELSE IF Ev.pt # Ev.gt THEN "set_translation did not put the grain's translation into the parameter object" ELSE "ok"
             /\ pt' = Ev.pt /\ cur' = Ev.g
-            /\ UNCHANGED <<gt, sim, inrp, presented, utol, own, drl, tab, npass>> /\ Consume
+            /\ UNCHANGED <<gt, sim, inrp, presented, utol, own, drl, tab, npass, savevars>> /\ Consume
 
 KernelGv == /\ Live /\ Ev.k = "kernelgv"
             /\ why' = IF cur = 0 THEN "compute_gv before any set_translation"
                       ELSE IF Ev.t # gt[cur] THEN "g-vectors for assignment computed with a translation that is not the grain's own" ELSE "ok"
-            /\ UNCHANGED <<gt, pt, cur, sim, inrp, presented, utol, own, drl, tab, npass>> /\ Consume
+            /\ UNCHANGED <<gt, pt, cur, sim, inrp, presented, utol, own, drl, tab, npass, savevars>> /\ Consume
 
 \* ---- the assignment action (RefineFlow!AssignScore / ScoreAssign!Chunk) on the tracked peaks -------------------
 \* score_and_assign(ubi of grain `label`): if (err < tol^2 && err < drlv2[k]) take ; else if (labels[k] == label) release
@@ -130,24 +153,47 @@ Assign == /\ Live /\ Ev.k = "assign"
           /\ presented' = IF PassEnds THEN {} ELSE presented \cup {Ev.label}
           /\ own' = OwnAfter /\ drl' = DrlAfter /\ tab' = TabAfter
           /\ npass' = IF PassEnds THEN npass + 1 ELSE npass
-          /\ UNCHANGED <<gt, pt, cur, sim, inrp, utol>> /\ Consume
+          /\ UNCHANGED <<gt, pt, cur, sim, inrp, utol, savevars>> /\ Consume
 
 UserTol == /\ Live /\ Ev.k = "usertol" /\ why' = "ok" /\ utol' = Ev.tol
-           /\ UNCHANGED <<gt, pt, cur, sim, inrp, presented, own, drl, tab, npass>> /\ Consume
+           /\ UNCHANGED <<gt, pt, cur, sim, inrp, presented, own, drl, tab, npass, savevars>> /\ Consume
 
 ComputeGv == /\ Live /\ Ev.k = "computegv"
              /\ why' = IF sim # 0 /\ Ev.g = sim THEN "ok"                      \* simplex trial: any translation
+                       ELSE IF insave /\ Ev.upd /\ Ev.g # cur
+                            THEN "savegrains filled the per-peak columns of a grain after loading the translation of another grain's key"
                        ELSE IF Ev.pt # gt[Ev.g] THEN "compute_gv for a grain with a translation that is not its own"
+                       ELSE IF insave /\ Ev.upd /\ \E i \in 1..Len(filled) : filled[i] = Ev.g
+                            THEN "savegrains filled the per-peak columns of a grain twice"
                        ELSE IF inrp /\ Ev.tol # 0 THEN "inside refinepositions the tolerance is not 1.0"
                        ELSE IF ~inrp /\ Ev.tol # utol THEN "tolerance not restored after refinepositions" ELSE "ok"
+             /\ filled' = IF insave /\ Ev.upd THEN Append(filled, Ev.g) ELSE filled
+             /\ UNCHANGED <<gt, pt, cur, sim, inrp, presented, utol, own, drl, tab, npass, insave, sv>> /\ Consume
+
+\* ---- the save step ------------------------------------------------------------------------------------------------
+SaveBegin == /\ Live /\ Ev.k = "savebegin"
+             /\ why' = IF presented # {} THEN "savegrains inside an assignment pass" ELSE "ok"
+             /\ insave' = TRUE /\ sv' = <<Ev.sort, Ev.npks>> /\ filled' = <<>>
              /\ UNCHANGED <<gt, pt, cur, sim, inrp, presented, utol, own, drl, tab, npass>> /\ Consume
+IsPerm(q) == Len(q) = Rec.NG /\ \A g \in 1..Rec.NG : \E i \in 1..Len(q) : q[i] = g
+SaveEnd == /\ Live /\ Ev.k = "saveend"
+           /\ why' = IF ~insave THEN "saveend without savebegin"
+                     ELSE IF ~IsPerm(filled) THEN "savegrains did not fill the per-peak columns of every grain exactly once"
+                     ELSE IF ~IsPerm(Ev.written) THEN "the saved grain file does not list every grain exactly once"
+                     ELSE IF sv[1] /\ \E i, j \in 1..Rec.NG : i < j /\ sv[2][Ev.written[i]] < sv[2][Ev.written[j]]
+                          THEN "sort_npks: the saved grain file does not list the grains by decreasing number of peaks"
+                     ELSE IF ~sv[1] /\ \E i \in 1..Rec.NG : Ev.written[i] # i
+                          THEN "sort_npks off: the saved grain file does not list the grains in the order of the input file"
+                     ELSE "ok"
+           /\ insave' = FALSE
+           /\ UNCHANGED <<gt, pt, cur, sim, inrp, presented, utol, own, drl, tab, npass, sv, filled>> /\ Consume
 
 Gof == /\ Live /\ Ev.k = "gof"
        /\ why' = IF ~inrp THEN "ok"
                  ELSE IF sim # 0 /\ Ev.g # sim THEN "simplex evaluated another grain than the one being refined"
                  ELSE IF sim = 0 /\ Ev.g # cur THEN "position refinement started without set_translation for that grain" ELSE "ok"
        /\ sim' = Ev.g /\ pt' = Ev.pt
-       /\ UNCHANGED <<gt, cur, inrp, presented, utol, own, drl, tab, npass>> /\ Consume
+       /\ UNCHANGED <<gt, cur, inrp, presented, utol, own, drl, tab, npass, savevars>> /\ Consume
 
 \* refine() outside gof: translations may have been stored just before (only for the grain under refinement)
 Refine == /\ Live /\ Ev.k = "refine"
@@ -155,14 +201,14 @@ Refine == /\ Live /\ Ev.k = "refine"
                     THEN "the translation of a grain that is not being refined changed"
                     ELSE IF sim # 0 /\ Ev.gts[sim] # pt THEN "stored translation is not the one in the parameter object" ELSE "ok"
           /\ gt' = Ev.gts /\ sim' = 0
-          /\ UNCHANGED <<pt, cur, inrp, presented, utol, own, drl, tab, npass>> /\ Consume
+          /\ UNCHANGED <<pt, cur, inrp, presented, utol, own, drl, tab, npass, savevars>> /\ Consume
 
 RpBegin == /\ Live /\ Ev.k = "rpbegin" /\ why' = "ok" /\ inrp' = TRUE
-           /\ UNCHANGED <<gt, pt, cur, sim, presented, utol, own, drl, tab, npass>> /\ Consume
+           /\ UNCHANGED <<gt, pt, cur, sim, presented, utol, own, drl, tab, npass, savevars>> /\ Consume
 RpEnd == /\ Live /\ Ev.k = "rpend"
          /\ why' = IF Ev.tol # utol THEN "refinepositions did not restore the tolerance" ELSE "ok"
          /\ inrp' = FALSE /\ sim' = 0
-         /\ UNCHANGED <<gt, pt, cur, presented, utol, own, drl, tab, npass>> /\ Consume
+         /\ UNCHANGED <<gt, pt, cur, presented, utol, own, drl, tab, npass, savevars>> /\ Consume
 
 FinalWhy(r) ==
   IF \E g \in 1..r.NG : r.dubi[g] > r.bubi[g] THEN "refined UBI further from the generating UBI than the bound"
@@ -170,6 +216,8 @@ FinalWhy(r) ==
   ELSE IF r.py_bad > 0 THEN "a peak outside the tracked sample is not owned by the grain with the strictly smallest error inside the tolerance (or not by the grain that produced it, or changed owner with the grain order)"
   ELSE IF ~r.labels_ok THEN "a simulated peak does not carry the label of the grain that produced it"
   ELSE IF ~r.hkl_ok THEN "a saved peak does not carry the integer hkl it was simulated from"
+  ELSE IF \E c \in 1..Len(r.cols) : r.cratio[c] > 1000
+       THEN "a per-peak column of the saved peak table is not the value the refined ubi and translation of the owning grain give"
   ELSE IF ~r.files_ok THEN "saved grain file does not carry the refined values"
   ELSE IF ~r.saved_ok THEN "the saved label column is not the result of the last assignment before saving"
   ELSE IF ~r.npks_ok THEN "a saved grain's peak count / peak list is not the set of peaks it produced"
@@ -183,7 +231,8 @@ Finish == /\ t <= Len(Trace) /\ (e = Len(Rec.ev) \/ why # "ok")
           /\ IF t + 1 <= Len(Trace) THEN Start(Trace[t + 1])
              ELSE /\ gt' = <<>> /\ pt' = 0 /\ cur' = 0 /\ sim' = 0 /\ inrp' = FALSE /\ presented' = {}
                   /\ utol' = 0 /\ own' = <<>> /\ drl' = <<>> /\ tab' = <<>> /\ npass' = 0
+                  /\ insave' = FALSE /\ sv' = <<>> /\ filled' = <<>>
 
-Next == SetTrans \/ KernelGv \/ Assign \/ UserTol \/ ComputeGv \/ Gof \/ Refine \/ RpBegin \/ RpEnd \/ Finish
+Next == SetTrans \/ KernelGv \/ Assign \/ UserTol \/ ComputeGv \/ Gof \/ Refine \/ RpBegin \/ RpEnd \/ SaveBegin \/ SaveEnd \/ Finish
 Spec == Init /\ [][Next]_vars
 =============================================================================
